@@ -294,7 +294,7 @@ class Transmitter(AbstractTransmitter):
             raise StopIteration()
         self._step_nr += 1
         if (self._step_nr == 1) and (not self._markov_reset):
-            origin = (self._current_time - self._warmup) if self._warmup else datetime.min
+            origin = (self._current_time - self._warmup) if self._warmup is not None else datetime.min
             #start_date, end_date = self._folds[self._fold_name]
             events_latent = [
                 e for t, e in self._partition_latent.items()
